@@ -17,7 +17,7 @@ ASSUMPTIONS = ["negative indices (Python wrap-around) are outside the model and 
 def gen_history(rng):
     m = rng.choice([1, 2, 3]); count = rng.randint(1, 5)
     tm, tv = rng.random() < 0.85, rng.random() < 0.7
-    noise = rng.choice([0.25, 0.5, 1.0, 2.0])
+    noise = rng.choice([0.25, 0.5, 1.0, 2.0, 0.0])        # a zero noise variance is a legal configuration
     ops = []
     for _ in range(rng.randint(1, 40)):
         r = rng.random()
